@@ -12,11 +12,16 @@ import (
 	"fmt"
 	"sort"
 
+	"go.uber.org/mock/gomock"
 	v1 "k8s.io/api/core/v1"
 
+	"github.com/NVIDIA/KAI-scheduler/pkg/scheduler/api/common_info"
 	"github.com/NVIDIA/KAI-scheduler/pkg/scheduler/api/node_info"
 	"github.com/NVIDIA/KAI-scheduler/pkg/scheduler/api/pod_info"
 	"github.com/NVIDIA/KAI-scheduler/pkg/scheduler/api/podgroup_info"
+	"github.com/NVIDIA/KAI-scheduler/pkg/scheduler/cache"
+	"github.com/NVIDIA/KAI-scheduler/pkg/scheduler/cache/cluster_info"
+	"github.com/NVIDIA/KAI-scheduler/pkg/scheduler/test_utils"
 
 	"kaiverif/internal/cycle"
 	u "kaiverif/internal/util"
@@ -58,9 +63,57 @@ type Trace struct {
 	seen     int // number of recorder calls already attributed
 }
 
+// reopenWithDepartments replaces the session of cycle.Build (every queue under the
+// one department "dept") by a session over the same nodes and pod groups whose
+// leaf queues sit under the departments of depts (queue -> department; each
+// department unlimited, created in order of first mention). The queue list
+// order stays the creation order of the queues. The recorder of cycle.Build is
+// re-wired onto the new session's cache.
+func reopenWithDepartments(b *cycle.Built, c cycle.Cluster, depts map[string]string) {
+	meta := test_utils.TestTopologyBasic{Name: "gen", DisableDefaultDepartment: true,
+		Mocks: &test_utils.TestMock{CacheRequirements: &test_utils.CacheMocking{NumberOfCacheBinds: 1 << 20, NumberOfCacheEvictions: 1 << 20, NumberOfPipelineActions: 1 << 20}}}
+	seen := map[string]bool{}
+	for _, q := range c.Queues {
+		d := depts[q.Name]
+		if d == "" {
+			d = "dept"
+		}
+		if !seen[d] {
+			seen[d] = true
+			meta.Departments = append(meta.Departments, test_utils.TestDepartmentBasic{Name: d,
+				DeservedGPUs: common_info.NoMaxAllowedResource, MaxAllowedGPUs: common_info.NoMaxAllowedResource})
+		}
+		prio := q.Priority
+		meta.Queues = append(meta.Queues, test_utils.TestQueueBasic{Name: q.Name, ParentQueue: d, DeservedGPUs: q.Deserved,
+			MaxAllowedGPUs: q.Limit, GPUOverQuotaWeight: q.OverQuota, Priority: &prio})
+	}
+	queues := test_utils.BuildQueueInfoMap(meta)
+	for k, v := range test_utils.BuildDepartmentInfoMap(meta) {
+		queues[k] = v
+	}
+	cluster_info.UpdateQueueHierarchy(queues)
+	cpai, _ := b.Rec.Cache.SnapshotSharedLister().(*cache.K8sClusterPodAffinityInfo)
+	if cpai == nil {
+		cpai = cache.NewK8sClusterPodAffinityInfo()
+	}
+	ctrl := gomock.NewController(b.Rep)
+	cfg := &test_utils.TestSessionConfig{Plugins: test_utils.BuildPlugins(meta), CachePlugins: map[string]bool{"predicates": true}}
+	ssn := test_utils.CreateFakeSession(cfg, b.Nodes, b.Jobs, queues, meta, ctrl, true, nil, cpai)
+	b.Rec.Cache = ssn.Cache
+	ssn.Cache = b.Rec
+	b.Ssn = ssn
+}
+
 // Setup builds the real session and installs the hooks.
-func Setup(c cycle.Cluster, cfg Config) (*cycle.Built, *Trace) {
+func Setup(c cycle.Cluster, cfg Config) (*cycle.Built, *Trace) { return SetupDepts(c, cfg, nil) }
+
+// SetupDepts: as Setup, with the leaf queues under the given departments (nil:
+// the single department of cycle.Build).
+func SetupDepts(c cycle.Cluster, cfg Config, depts map[string]string) (*cycle.Built, *Trace) {
 	b := cycle.Build(c)
+	if depts != nil {
+		reopenWithDepartments(b, c, depts)
+	}
 	ssn := b.Ssn
 	ssn.SchedulerParams.UseSchedulingSignatures = cfg.Sigs
 	tr := &Trace{}
